@@ -3,6 +3,7 @@ package harness
 import (
 	"encoding/json"
 	"fmt"
+	"github.com/aquilax/hranoprovod-cli/v3/verifsim"
 	"os"
 	"runtime/debug"
 	"testing"
@@ -59,8 +60,24 @@ func TestHrsim(t *testing.T) {
 		fmt.Fprintf(os.Stderr, "hrsim: unknown property %q\n", prop)
 		os.Exit(exitHarnessFault)
 	}
+	if inner := def.decode; true {
+		def.decode = func(raw json.RawMessage) (Case, error) {
+			var probe struct {
+				History []World `json:"hrsim_history"`
+			}
+			if json.Unmarshal(raw, &probe) == nil && probe.History != nil {
+				h := &CaseHistory{}
+				if err := json.Unmarshal(raw, h); err != nil {
+					return nil, err
+				}
+				return h, nil
+			}
+			return inner(raw)
+		}
+	}
 	code := exitHarnessFault
 	curT = t
+	verifsim.SetCPUs(8)          // the simulated machine (rule R12), whatever GOMAXPROCS this worker runs with
 	debug.SetMaxStack(256 << 20) // unbounded recursion kills the worker quickly instead of eating memory
 	startWatchdog(20 * time.Second)
 	func() {
